@@ -95,7 +95,8 @@ def ocaml_eval_bytecode(ck, name, cases_ml, timeout=1500):
     d = os.path.join(vcheck.BUILD, "ocaml", vcheck.repo_tag(), name)
     os.makedirs(d, exist_ok=True)
     t = time.time()
-    rc, out = vcheck.sh(["coqc", "-R", vcheck.COQ, "Qryn", "-w", "-extraction", os.path.join(vcheck.COQ, "extract", "ExtractC07.v")], cwd=d, timeout=600)
+    rc, out = vcheck.sh(["coqc", "-R", vcheck.COQ, "Qryn", "-w", "-extraction", "-o", os.path.join(d, "ExtractC07.vo"),
+                         os.path.join(vcheck.COQ, "extract", "ExtractC07.v")], cwd=d, timeout=600)
     if rc != 0:
         return rc, "extraction failed: " + out[-2000:]
     prelude = open(os.path.join(vcheck.VERIF, "ocaml", "prelude.ml")).read()
